@@ -173,6 +173,19 @@ def run(chk):
         chk.coverage['dnskey_decoded'] = len(dec_lines)
     else:
         chk.violation('model runner does not build: %s' % br.failed_file, {'error': br.error}, None, False)
+    # TXT RDATA is one or more <character-string>s (RFC 1035 3.3.14), empty ones included and anywhere: the conformant encoding
+    # must be consumed entirely and give the concatenated text
+    from cryptoparser.dnsrec.record import DnsRecordTxt
+    ntxt = 0
+    for strings in ([b''], [b'value', b''], [b'', b'value'], [b'a', b'', b'b'], [b'x' * 255, b''], [b'x' * 255, b'y'], [b'v=spf1 -all'],
+                    [bytes(rng.choice(b'abc =;') for _ in range(rng.randint(0, 40))) for _ in range(rng.randint(1, 4))]):
+        rdata = b''.join(bytes([len(x)]) + x for x in strings)
+        r = impl.outcome(lambda: DnsRecordTxt.parse_exact_size(rdata).value)
+        chk.coverage['txt_rdata'] = chk.coverage.get('txt_rdata', 0) + 1
+        if r != 'OK ' + b''.join(strings).decode('ascii') and ntxt < 3:
+            ntxt += 1
+            chk.violation('conformant TXT RDATA %s (character-strings of %s octets) parses to %s' % (rdata.hex()[:60], [len(x) for x in strings], r[:80]),
+                          {'rdata': rdata.hex(), 'impl': r[:200], 'kind': 'txt'}, None, True)
     # internationalised names: U-labels in the object, A-labels (xn--) on the wire, recovered exactly by the parser
     idn = idn_failures(rng, 20 if chk.tier == 'quick' else 400)
     for what, rep in idn[:3]:
@@ -209,6 +222,18 @@ def replay(path):
         print('labels %r -> parsed back as %r' % (want, back))
         print('replay: property %s' % ('holds on this input' if back == want else 'FAILS on this input'))
         return 0 if back == want else 1
+    if r.get('kind') == 'txt':
+        from cryptoparser.dnsrec.record import DnsRecordTxt
+        rdata = bytes.fromhex(r['rdata'])
+        o = impl.outcome(lambda: DnsRecordTxt.parse_exact_size(rdata).value)
+        want, i = [], 0
+        while i < len(rdata):
+            want.append(rdata[i + 1:i + 1 + rdata[i]])
+            i += 1 + rdata[i]
+        ok = o == 'OK ' + b''.join(want).decode('ascii')
+        print('TXT RDATA %s -> %s' % (r['rdata'][:60], o[:80]))
+        print('replay: property %s' % ('holds on this input' if ok else 'FAILS on this input'))
+        return 0 if ok else 1
     if 'cmd' not in r:
         print(json.dumps(r, indent=1)[:3000])
         return 1
